@@ -18,6 +18,12 @@ CHECKS = {
  "C04": dict(cat="model_checking", engine="simcluster", technique="explicit-state DFS of the real controller with purge/transmit/fetch monitors",
              text="Monitors on every purge/transmit/fetch of every explored schedule: consumers done, requested value delivered, no unanswered transfer/fetch from the purged host, source holds the dataset, nothing needed after its purge.",
              note="'unanswered' = reply event not yet delivered to the controller; reference cluster model as in C01.", ref="DESIGN.md 3 C04"),
+ "C08": dict(cat="model_checking", engine="bfs", technique="explicit-state BFS over operation histories of the real shm client/server/Manager/Disk bodies with capacity invariants in every state; conformance replay on real shared memory and threads",
+             text="Every history (bounded depth, or closure where reached) of allocate/finish-write/get/finish-read/purge and disk-job completions (ok or failing at two points) is executed on the real stack; after every event the ground-truth segment bytes, the protocol-derived resident total and the free space reported over the protocol are compared, and admission answers are checked.",
+             note="Disk job body+callback atomic at the chosen completion step; purge in transitional states follows the store; fake SharedMemory validated against the real one by replaying histories.", ref="DESIGN.md 3 C08"),
+ "C09": dict(cat="model_checking", engine="bfs", technique="explicit-state BFS over operation histories of the real shm stack with byte-pattern, protection and bounded-liveness oracles in every state",
+             text="Same state space as C08 with distinct byte patterns really written/read through segments and page-out/page-in round trips; monitors for read-before-close, page-out/unlink during read, delayed purge; in every reachable state a bounded liveness closure (complete jobs, retry) must end in a grant for every satisfiable request.",
+             note="Staleness windows unreachable; completion atomicity as C08.", ref="DESIGN.md 3 C09"),
  "C16": dict(cat="exploration", engine="enumeration", technique="bounded-exhaustive enumeration of all DAGs (n<=5/6) x 4 variants against a networkx reference model",
              text="Every edge set over <=5 (quick) / <=6 (thorough) labelled tasks in four variants goes through the real precompute() and is compared field by field with a networkx reference (components, sources, edge projections, depth, value, nearest-common-descendant distances).",
              note="Only the Python fallback of nearest_common_descendant is reachable (coptrs not installed); DAGs above 6 tasks outside the bound.", ref="DESIGN.md 3 C16"),
@@ -62,7 +68,7 @@ def main():
         "engines": [
             {"name": "simcluster", "path": "vf/simcluster.py", "serves_properties": ["C01", "C02", "C03", "C04"],
              "kind_free_text": "stateless DFS with prefix replay + state-hash pruning over the real controller.run against a reference cluster behind the Bridge interface"},
-            {"name": "bfs", "path": "vf/checks", "serves_properties": ["C18"],
+            {"name": "bfs", "path": "vf/checks", "serves_properties": ["C08", "C09", "C18"],
              "kind_free_text": "explicit-state BFS over operation histories (fresh real objects rebuilt per history, canonical state hashing)"},
             {"name": "enumeration", "path": "vf/checks", "serves_properties": ["C16", "C17", "C19"],
              "kind_free_text": "bounded-exhaustive input/program enumeration against a reference model"},
